@@ -397,10 +397,11 @@ func c08(tier string, args []string) int {
 		famPEP([]int8{}, true, "PEP(kings+pawns, second capturer)"),
 		famPPromo2(false),
 		famPBlock(),
+		famPPromoOwn(2, "PPROMO(own piece on the push/capture squares, files a-b)"),
 	}
 	if tier == "thorough" {
 		depth, seeds, hdepth = 3, space.AllSeeds(), 4
-		fams = []family{famP3(space.P3Opt{}, "P3"), famPPromo(), famPEP([]int8{space.R}, true, "PEP(extra=rook, second capturer)"), famPCastle(0), famPPromo2(true), famPBlock()}
+		fams = []family{famP3(space.P3Opt{}, "P3"), famPPromo(), famPEP([]int8{space.R}, true, "PEP(extra=rook, second capturer)"), famPCastle(0), famPPromo2(true), famPBlock(), famPPromoOwn(8, "PPROMO(own piece on the push/capture squares)")}
 	}
 	saved := config.Settings.Search.UsePromNonQuiet
 	for _, prom := range []bool{true, false} {
@@ -408,7 +409,7 @@ func c08(tier string, args []string) int {
 		nu := func() interface{} { u := newC08user().(*c08user); u.prom = prom; return u }
 		f := fams
 		if tier != "thorough" && !prom {
-			f = []family{famPPromoAD(), famPPromo2(false)} // the switch only concerns promotions
+			f = []family{famPPromoAD(), famPPromo2(false), famPPromoOwn(2, "PPROMO(own piece on the push/capture squares, files a-b)")} // the switch only concerns promotions
 		}
 		runFamilies(run, f, nu, c08State)
 		runTree(run, seeds, depth, nu, c08State)
